@@ -24,7 +24,13 @@ RULE = ('fixed grid: every defaultable (and non-defaultable) field type x parame
         'around the bounds (ints for floats, huge ints, strings around length bounds, prefix-vs-full pattern cases, tag references '
         'incl. inherited, foreign-namespace and aliased unions), same grid for one-member examples (lists, maps, null); random flat '
         'struct chains with inherited / defaulted / nullable fields; every defaulted field and every example label of generated specs '
-        '(presets rt, default, fe restricted to specs the python_types backend can load)')
+        '(presets rt, default, fe restricted to specs the python_types backend can load); reference grid: 19 shapes of a '
+        'referenced type (struct, child, tree root / leaf, union, inherited union, closed union, nullable, aliases of them, other '
+        'namespace) x 13-17 containers (bare, List, List?, List(List), Map, Map?, Map of List, aliases of them, nullable items) x '
+        'member of a struct / union / inherited / subtype / inherited tag / embedded twice over x case declared before or after '
+        'what it refers to (quick: struct and union members in full, a seeded fifth of the rest); shape grid: 28 whole-example '
+        'shapes of a union and of a struct with enumerated subtypes; void members in the example grid; compact form of every '
+        'judged example; inherited defaults read on instances of every descendant')
 
 # ==================================================================================================
 # real compiler, fast path
@@ -98,10 +104,11 @@ class GridCompiler:
             a = parse_only(text, path)
             self.fixed.append(a)
 
-    def specs(self, body):
-        return self.fixed_specs + [('case.stone', 'namespace ns\n\n' + body)]
+    def specs(self, body, first=False):
+        case = [('case.stone', 'namespace ns\n\n' + body)]
+        return case + self.fixed_specs if first else self.fixed_specs + case
 
-    def compile(self, body):
+    def compile(self, body, first=False):
         from stone.frontend.ir_generator import IRGenerator
         from stone.frontend.exception import InvalidSpec
         try:
@@ -110,7 +117,9 @@ class GridCompiler:
             if p.got_errors_parsing():
                 msg, lineno, path = p.get_errors()[0]
                 raise InvalidSpec(msg, lineno, path)
-            asts = [list(x) for x in self.fixed] + ([a] if a else [])
+            asts = [list(x) for x in self.fixed]
+            if a:
+                asts = [a] + asts if first else asts + [a]
             return ('ok', IRGenerator(asts, '0.1b1', debug=False).generate_IR())
         except InvalidSpec as e:
             return ('invalid', str(e.msg)[:160])
@@ -464,13 +473,14 @@ def classify_default_refusal(field):
     return 'other-' + type(t).__name__
 
 
-def judge_default(built, struct_ir, field):
-    """The property on one defaulted field of a loaded module: [(what, signature, detail)]"""
+def judge_default(built, struct_ir, field, via=None):
+    """The property on one defaulted field of a loaded module: [(what, signature, detail)]. `via`: a struct that
+    inherits the field from `struct_ir` - the field is then read on an instance of that class."""
     from stone.ir.data_types import TagRef
     from stone.backends.python_rsrc import stone_base as bb
     from stone.backends.python_helpers import fmt_var
     problems = []
-    cls = built.cls_by_ref[ref_of(struct_ir)]
+    cls = built.cls_by_ref[ref_of(via if via is not None else struct_ir)]
     attr = fmt_var(field.name)
     tname = type(unwrap_ir(field.data_type)).__name__
     try:
@@ -594,21 +604,22 @@ def grid_type_irs(ck, gc, types):
     return irts, unions
 
 
-def build_batches(ck, cases, render, risky=lambda c: False, size=80):
+def build_batches(ck, cases, render, risky=lambda c: False, size=80, gc=None, first=False):
     """cases accepted by the compiler -> loaded modules. `render(i, case)` gives the definition text.
     Yields (case, built | None, definition name, failure). Cases for which module generation is expected to fail
-    are built alone; a batch that fails all the same is split."""
-    gc = grid_compiler(ck)
+    are built alone; a batch that fails all the same is split. `gc`: another fixed prelude than the grid's;
+    `first`: the case file is handed to the compiler before the fixed files."""
+    gc = gc or grid_compiler(ck)
     if gc is None:
         return
 
     def attempt(group):
         body = ''.join(render(i, c) for i, c in group)
         try:
-            out = gc.compile(body)
+            out = gc.compile(body, first)
             if out[0] != 'ok':
                 raise RuntimeError('batch of accepted cases refused: %r' % (out,))
-            return pygen.build_python(gc.specs(body), api=out[1]), None
+            return pygen.build_python(gc.specs(body, first), api=out[1]), None
         except Exception as e:  # noqa: BLE001
             return None, e
 
@@ -656,7 +667,7 @@ def _type_family(t):
         return 'bool'
     if t.startswith(('List', 'Map', 'Tee')):
         return 'container'
-    if t == 'VoidAlias':
+    if t in ('VoidAlias', ''):
         return 'void'
     return 'union'
 
@@ -679,7 +690,7 @@ def _lit_family(l):
 
 _RELEVANT = {
     'int': {'int', 'bool', 'float', 'null'}, 'float': {'int', 'bool', 'float', 'str', 'null', 'tag'}, 'str': {'str', 'null'},
-    'text': {'str', 'null'}, 'bool': {'bool', 'int', 'null'}, 'container': {'null', 'list', 'map'}, 'void': {'null'},
+    'text': {'str', 'null'}, 'bool': {'bool', 'int', 'null'}, 'container': {'null', 'list', 'map'}, 'void': {'null', 'int', 'str', 'bool', 'tag'},
     'union': {'tag', 'null'},
 }
 
@@ -859,6 +870,22 @@ def build_generated(ck, n_by_profile):
     return out
 
 
+def descendants_of(api, dt):
+    """structs that extend `dt`, directly or not"""
+    from stone.ir import Struct
+    out = []
+    for ns in api.namespaces.values():
+        for d in ns.data_types:
+            if isinstance(d, Struct) and d is not dt:
+                p = d.parent_type
+                while p is not None:
+                    if p is dt:
+                        out.append(d)
+                        break
+                    p = p.parent_type
+    return out
+
+
 def ast_default_of(field):
     return field._ast_node.default
 
@@ -889,6 +916,13 @@ def suite_spec_defaults(ck, builts):
                         ck.hist('default.spec.shape', 'foreign-union')
                     for what, sig, detail in judge_default(built, dt, f):
                         ck.failing_input('C10 default: ' + what, sig, dict(case, **detail))
+                    for sub in descendants_of(built.api, dt):
+                        # the same field read on an instance of every class that inherits it (also in another namespace)
+                        ck.case(('sdef-inh', ref_of(sub), ref_of(dt), f.name), nontrivial=True)
+                        ck.hist('default.spec.shape', 'inherited' + ('-foreign' if sub.namespace is not dt.namespace else ''))
+                        for what, sig, detail in judge_default(built, dt, f, via=sub):
+                            ck.failing_input('C10 default (read on an instance of a subclass): ' + what, dict(sig, via='subclass'),
+                                             dict(case, read_on=ref_of(sub), **detail))
                     lit = lit_tagged(ast_default_of(f))
                     pats, fmts, strings, ints = set(), set(), set(), set()
                     type_params(irt, pats, fmts)
@@ -948,9 +982,100 @@ def json_same(a, b):
     return a == b
 
 
+def _leaf_text(o):
+    return '<%s %s>' % (type(o).__name__, getattr(o, 'label', getattr(o, 'tag', getattr(o, 'tag_name', ''))))
+
+
 def plain_json(v):
-    """OrderedDicts etc. -> what json.loads would give"""
-    return json.loads(json.dumps(v))
+    """OrderedDicts etc. -> what json.loads would give (a leaf that is no JSON data at all - see non_json_leaf - is
+    shown as text, so that a case can always be keyed / recorded)"""
+    return json.loads(json.dumps(v, default=_leaf_text))
+
+
+def non_json_leaf(v, path=()):
+    """first part of a computed example that is not JSON data (null, boolean, finite number, text, array, object
+    with text keys): (path, object) | None"""
+    if v is None or isinstance(v, (bool, int, str)):
+        return None
+    if isinstance(v, float):
+        return None if v == v and v not in (float('inf'), float('-inf')) else (path, v)
+    if isinstance(v, (list, tuple)):
+        for i, x in enumerate(v):
+            r = non_json_leaf(x, path + (i,))
+            if r:
+                return r
+        return None
+    if isinstance(v, dict):
+        for k, x in v.items():
+            if not isinstance(k, str):
+                return (path + (k,), k)
+            r = non_json_leaf(x, path + (k,))
+            if r:
+                return r
+        return None
+    return (path, v)
+
+
+def member_type_of(dt, name):
+    """declared type of the member `name` of a struct (incl. inherited, subtypes' members) or union, else None"""
+    from stone.ir import Struct
+    for f in dt.all_fields:
+        if f.name == name:
+            return f.data_type
+    if isinstance(dt, Struct) and dt.has_enumerated_subtypes():
+        for sf in dt.get_enumerated_subtypes():
+            t = member_type_of(sf.data_type, name)
+            if t is not None:
+                return t
+    return None
+
+
+def leaf_member(dt, path):
+    """type-directed walk of an example document along `path`: (kind of the innermost struct / union on the way,
+    declared type of its member that holds the end of the path) - the example that was embedded by reference"""
+    from stone.ir import Alias, List, Map, Nullable, Struct, Union
+    t, holder, member = dt, None, None
+    for key in path:
+        while isinstance(t, (Alias, Nullable)):
+            t = t.data_type
+        if isinstance(t, (Struct, Union)):
+            if key == '.tag':
+                return holder, member
+            mt = member_type_of(t, key)
+            h = 'struct' if isinstance(t, Struct) else 'union'
+            if mt is None and isinstance(t, Union):
+                # a struct member of a union is inlined next to ".tag": the key belongs to one of the struct members
+                for f in t.all_fields:
+                    inner = unwrap_ir(f.data_type)
+                    if isinstance(inner, Struct) and member_type_of(inner, key) is not None:
+                        mt, h = member_type_of(inner, key), 'struct'
+                        break
+            if mt is None:
+                return holder, member
+            t, holder, member = mt, h, mt
+        elif isinstance(t, List):
+            t = t.data_type
+        elif isinstance(t, Map):
+            t = t.value_data_type
+        else:
+            break
+    return holder, member
+
+
+def map_site(t):
+    """where the first Map of a member type sits: 'map-below-alias' | 'map' | 'no-map'"""
+    from stone.ir import Alias, List, Map, Nullable
+    below_alias = False
+    while True:
+        if isinstance(t, Alias):
+            below_alias = True
+            t = t.data_type
+        elif isinstance(t, (Nullable, List)):
+            t = t.data_type
+        elif isinstance(t, Map):
+            return 'map-below-alias' if below_alias else 'map'
+        else:
+            return 'no-map'
 
 
 def _b64_ok(s):
@@ -1202,9 +1327,18 @@ def judge_example(built, dt, label, example_value, perms):
     problems is NOT_JUDGED for a document that uses a catch-all tag (explicitly written: `f = other`)"""
     from stone.backends.python_rsrc import stone_serializers as ss
     validator = built.validator_for(dt)
+    kind = type(dt).__name__.lower()
+    leaf = non_json_leaf(example_value)
+    if leaf is not None:
+        # "is a JSON document": an unevaluated reference (or any other object of the compiler) left in the value
+        path, o = leaf
+        holder, mt = leaf_member(dt, path)
+        return ([('computed example is not a JSON document: it holds a %s object' % type(o).__name__,
+                  {'kind': 'example-not-json', 'leaf': type(o).__name__, 'of': holder or kind,
+                   'site': map_site(mt) if mt is not None else 'unknown'},
+                  {'at': list(path), 'leaf': _leaf_text(o), 'example_of': kind})], None, None)
     doc = plain_json(example_value)
     p = _Perms(perms) if perms else None
-    kind = type(dt).__name__.lower()
     if embeds_catch_all(dt, doc):
         return (NOT_JUDGED, None, None)
     try:
@@ -1224,7 +1358,96 @@ def judge_example(built, dt, label, example_value, perms):
         why = first_difference(dt, doc, back) or 'other'
         return ([('decoded example encodes to a different document', {'kind': 'example-roundtrip', 'why': why},
                   {'encoded': back, 'of': kind})], obj, back)
-    return ([], obj, back)
+    return (judge_compact(built, dt, label, doc, validator, p), obj, back)
+
+
+_COMPACT = {}
+
+
+def compact_examples_of(dt):
+    """dt.get_examples(compact=True), computed once per type (every call deep-copies all examples)"""
+    hit = _COMPACT.get(id(dt))
+    if hit is None or hit[0] is not dt:
+        if len(_COMPACT) > 400:
+            _COMPACT.clear()
+        hit = _COMPACT[id(dt)] = (dt, dt.get_examples(compact=True))
+    return hit[1]
+
+
+def compaction_sites(t, full, comp, out):
+    """type-directed walk of an example and its compact form: the kinds of types at which `{".tag": x}` became `x`"""
+    from stone.ir import Alias, List, Map, Nullable, Struct, Union, Void
+    while isinstance(t, (Alias, Nullable)):
+        t = t.data_type
+    if isinstance(full, dict) and isinstance(comp, str):
+        if isinstance(t, Union):
+            mt = member_type_of(t, comp)
+            out.append('union-void-tag' if isinstance(unwrap_alias_only(mt), Void) else
+                       ('union-null-member' if isinstance(unwrap_alias_only(mt), Nullable) else 'union-member-with-nothing-set'))
+        else:
+            out.append('struct-tree' if isinstance(t, Struct) and t.has_enumerated_subtypes() else type(t).__name__.lower())
+        return
+    if isinstance(t, List) and isinstance(full, list) and isinstance(comp, list):
+        for a, b in zip(full, comp):
+            compaction_sites(t.data_type, a, b, out)
+    elif isinstance(t, Map) and isinstance(full, dict) and isinstance(comp, dict):
+        for k in full:
+            if k in comp:
+                compaction_sites(t.value_data_type, full[k], comp[k], out)
+    elif isinstance(t, (Struct, Union)) and isinstance(full, dict) and isinstance(comp, dict):
+        st = t
+        if isinstance(t, Struct) and t.has_enumerated_subtypes():
+            for sf in t.get_enumerated_subtypes():
+                if sf.name == full.get('.tag'):
+                    st = sf.data_type
+        for k in full:
+            if k != '.tag' and k in comp:
+                mt = member_type_of(st, k)
+                if mt is None and isinstance(t, Union):
+                    # a struct member of a union is inlined next to ".tag"
+                    tagt = member_type_of(t, full.get('.tag'))
+                    inner = unwrap_ir(tagt) if tagt is not None else None
+                    mt = member_type_of(inner, k) if isinstance(inner, Struct) else None
+                if mt is not None:
+                    compaction_sites(mt, full[k], comp[k], out)
+
+
+def judge_compact(built, dt, label, doc, validator, p):
+    """get_examples(compact=True): "union members of void type are converted to their compact representation ... just
+    the tag as a string". Judged only for an example whose full form holds: the compact form decodes strictly as the
+    type and the decoded value encodes to the full form."""
+    from stone.backends.python_rsrc import stone_serializers as ss
+    if label is None:
+        return []
+    kind = type(dt).__name__.lower()
+    try:
+        ex = compact_examples_of(dt).get(label)
+    except Exception as e:  # noqa: BLE001
+        return [('get_examples(compact=True) raises', {'kind': 'compact-example', 'why': 'raises', 'exc': type(e).__name__},
+                 {'error': repr(e)[:200], 'of': kind})]
+    if ex is None or non_json_leaf(ex.value) is not None:
+        return []
+    cdoc = plain_json(ex.value)
+    if cdoc == doc:
+        return []
+    sites = []
+    compaction_sites(dt, doc, cdoc, sites)
+    legit = {'union-void-tag', 'union-null-member'}
+    odd = [x for x in sites if x not in legit]
+    where = 'only-void-and-null-tags-compacted' if sites and not odd else \
+        ({'struct-tree': 'struct-tree-tag-compacted', 'union-member-with-nothing-set': 'struct-member-tag-compacted'}.get(odd[0], 'other')
+         if odd else 'other')
+    try:
+        obj = ss.json_compat_obj_decode(validator, plain_json(cdoc), caller_permissions=p, strict=True)
+        back = plain_json(ss.json_compat_obj_encode(validator, obj, caller_permissions=p))
+    except Exception as e:  # noqa: BLE001
+        return [('compact form of a computed example does not decode strictly as its type',
+                 {'kind': 'compact-example-decode', 'why': where, 'exc': type(e).__name__},
+                 {'compact': cdoc, 'error': '%s: %s' % (type(e).__name__, str(e)[:200]), 'of': kind})]
+    if not json_same(doc, back):
+        return [('compact form of a computed example decodes to a value that encodes to another document than the example',
+                 {'kind': 'compact-example-roundtrip', 'why': where}, {'compact': cdoc, 'encoded': back, 'of': kind})]
+    return []
 
 
 def report_example(ck, problems, case):
@@ -1402,7 +1625,7 @@ def _key_orders(j):
 def _example_text(kind, t, v, name='S'):
     if kind == 'struct':
         return 'struct %s\n    f %s\n    example default\n        f = %s\n' % (name, t, v)
-    return 'union %s\n    f %s\n    example default\n        f = %s\n' % (name, t, v)
+    return 'union %s\n    f%s\n    example default\n        f = %s\n' % (name, ' ' + t if t else '', v)
 
 
 def suite_example_grid(ck):
@@ -1422,7 +1645,8 @@ def suite_example_grid(ck):
             ck.stat('example.grid.unparsable_value')
     reqs, meta, accepted = [], [], []
     for kind in ('struct', 'union'):
-        for t in types:
+        # a union member may be void: the bare tag and an alias of Void (no struct field can)
+        for t in types + (['', 'VoidAlias'] if kind == 'union' else []):
             if kind == 'union' and (t.startswith('Float32(') or t.startswith('UInt32(') or t.startswith('Int64(')):
                 continue                                  # the union half repeats a representative part of the types
             base_text = _example_text(kind, t, 'null').split('    example')[0]
@@ -1483,6 +1707,366 @@ def suite_example_grid(ck):
         report_example(ck, problems, dict(case, example=plain_json(ex.value)))
         # the model was asked about class ns.S; the batch calls it ns.S<i>: documents do not mention the class
         compare_example_model(ck, built, dt, ex.value, slim, rep, ['ok'], _has_ref(parsed[v]))
+
+
+# ==================================================================================================
+# suite: reference grid - every shape of a referenced type x every container x every position an example value can
+# occur in x declaration order (direct oracle only: following references is outside the model)
+# ==================================================================================================
+REF_PRELUDE = '''namespace ns
+
+import other_ns
+
+struct P
+    x Int32
+    y Int32 = 7
+    example default
+        x = 1
+    example two
+        x = 2
+        y = 3
+
+struct PC extends P
+    z String?
+    example default
+        x = 5
+    example full
+        x = 6
+        z = "zz"
+
+struct R
+    union
+        a RA
+        b RB
+    k Int32 = 1
+    example default
+        a = default
+    example viab
+        b = default
+
+struct RA extends R
+    q String
+    example default
+        q = "q"
+
+struct RB extends R
+    ps List(P)
+    example default
+        ps = [default, two]
+        k = 2
+
+union U
+    v
+    p P
+    n Int32
+    r R
+    np P?
+    example default
+        p = two
+    example num
+        n = 3
+    example viar
+        r = viab
+    example nul
+        np = null
+    example some
+        np = default
+
+union_closed UC
+    c1
+    c2 String
+    example viac2
+        c2 = "s"
+
+union UX extends U
+    x2
+    example default
+        x2 = null
+    example inh
+        n = 4
+
+alias PA = P
+alias PAA = PA
+alias PN = P?
+alias RAl = R
+alias UA = U
+alias UN = U?
+alias FPA = other_ns.FP
+
+'''
+REF_OTHER = ('namespace other_ns\n\nstruct FP\n    z Int32\n    example default\n        z = 9\n\n'
+             'union FU\n    w\n    s String\n    example es\n        s = "t"\n')
+
+# (type text, labels that denote an example of it, may `null` be written)
+REF_TARGETS = [
+    ('P', ['default', 'two']), ('PC', ['default', 'full']), ('PA', ['default', 'two']), ('PAA', ['two']),
+    ('P?', ['default', 'null']), ('PN', ['two', 'null']),
+    ('R', ['default', 'viab']), ('RAl', ['viab']), ('R?', ['default', 'null']), ('RA', ['default']),
+    ('U', ['default', 'num', 'v', 'viar', 'nul', 'some']), ('UA', ['num', 'v']), ('U?', ['default', 'null', 'v']),
+    ('UN', ['viar', 'null']), ('UC', ['c1', 'viac2']), ('UX', ['x2', 'inh', 'v']),
+    ('other_ns.FP', ['default']), ('other_ns.FU', ['w', 'es']), ('FPA', ['default']),
+]
+
+REF_POSITIONS = ('struct', 'union', 'inherited', 'subtype', 'union-inherited', 'nested')
+
+
+def ref_containers(t, labels):
+    """[(container name, alias declarations ('%s' = case suffix), member type text, value text)]"""
+    a, b = labels[0], labels[-1]
+    nn = [l for l in labels if l != 'null']
+    out = [('T', '', t, l) for l in labels]
+    out += [('List', '', 'List(%s)' % t, '[%s, %s]' % (a, b)), ('List', '', 'List(%s)' % t, '[]'),
+            ('List?', '', 'List(%s)?' % t, '[%s]' % b), ('List?', '', 'List(%s)?' % t, 'null'),
+            ('ListList', '', 'List(List(%s))' % t, '[[%s], [], [%s, %s]]' % (a, b, a)),
+            ('Map', '', 'Map(String, %s)' % t, '{"k": %s, "j": %s}' % (a, b)), ('Map', '', 'Map(String, %s)' % t, '{}'),
+            ('Map?', '', 'Map(String, %s)?' % t, '{"k": %s}' % b), ('Map?', '', 'Map(String, %s)?' % t, 'null'),
+            ('MapList', '', 'Map(String, List(%s))' % t, '{"k": [%s, %s]}' % (a, b)),
+            ('alias-List', 'alias CL%%s = List(%s)\n' % t, 'CL%s', '[%s, %s]' % (b, a)),
+            ('alias-List?', 'alias CLN%%s = List(%s)?\n' % t, 'CLN%s', '[%s]' % a),
+            ('alias-Map', 'alias CM%%s = Map(String, %s)\n' % t, 'CM%s', '{"k": %s}' % a),
+            ('nullable-alias-Map', 'alias CM%%s = Map(String, %s)\n' % t, 'CM%s?', '{"k": %s, "j": %s}' % (b, a)),
+            ('alias-Map?', 'alias CMN%%s = Map(String, %s)?\n' % t, 'CMN%s', '{"k": %s}' % b),
+            ('alias-MapList', 'alias CML%%s = Map(String, List(%s))\n' % t, 'CML%s', '{"k": [%s], "j": []}' % b),
+            ('Map-of-alias-List', 'alias CL%%s = List(%s)\n' % t, 'Map(String, CL%s)', '{"k": [%s, %s]}' % (a, b)),
+            ('List-of-alias-List', 'alias CL%%s = List(%s)\n' % t, 'List(CL%s)', '[[%s]]' % b)]
+    if not t.endswith('?') and t not in ('PN', 'UN'):
+        out += [('List-of-nullable', '', 'List(%s?)' % t, '[%s, null]' % nn[0]),
+                ('Map-of-nullable', '', 'Map(String, %s?)' % t, '{"k": null, "j": %s}' % nn[-1])]
+    return out
+
+
+def ref_case_text(i, case):
+    """definition text of one case; every name it declares ends in _<i>"""
+    pos, _t, _cname, decl, mty, val = case
+    sfx = '_%d' % i
+    decl = decl % sfx if decl else ''
+    mty = mty % sfx if '%s' in mty else mty
+    ex = '    example default\n        f = %s\n' % val
+    if pos == 'struct':
+        body = 'struct S%s\n    f %s\n%s' % (sfx, mty, ex)
+    elif pos == 'union':
+        body = 'union S%s\n    f %s\n%s' % (sfx, mty, ex)
+    elif pos == 'inherited':
+        body = 'struct B%s\n    f %s\n\nstruct S%s extends B%s\n    g Int32\n%s        g = 1\n' % (sfx, mty, sfx, sfx, ex)
+    elif pos == 'subtype':
+        body = ('struct T%s\n    union\n        s S%s\n    f %s\n    example default\n        s = default\n\n'
+                'struct S%s extends T%s\n    g Int32\n%s        g = 1\n' % (sfx, sfx, mty, sfx, sfx, ex))
+    elif pos == 'union-inherited':
+        body = 'union B%s\n    f %s\n\nunion S%s extends B%s\n    g Int32\n%s' % (sfx, mty, sfx, sfx, ex)
+    else:   # nested: the example is embedded by reference, in a struct, a list and flattened into a union
+        body = ('struct S%s\n    f %s\n%s\nstruct H%s\n    h S%s\n    hs List(S%s)\n    example default\n        h = default\n'
+                '        hs = [default, default]\n\nunion HU%s\n    h S%s\n    example default\n        h = default\n'
+                % (sfx, mty, ex, sfx, sfx, sfx, sfx, sfx))
+    return decl + body + '\n'
+
+
+_REFGRID = None
+
+
+def ref_compiler(ck):
+    global _REFGRID
+    if _REFGRID is None:
+        try:
+            gc = GridCompiler([('ns.stone', REF_PRELUDE), ('other_ns.stone', REF_OTHER)])
+            out = gc.compile('')
+        except ValueError as e:
+            out = ('invalid', str(e)[:200])
+        if out[0] != 'ok':
+            ck.disagree('decl.ircheck.grid_prelude', {'what': 'prelude of the reference grid',
+                                                      'specs': [['ns.stone', REF_PRELUDE], ['other_ns.stone', REF_OTHER]]},
+                        list(out[:2]), ['ok'])
+            return None
+        _REFGRID = gc
+    ck.agree('decl.ircheck.grid_prelude')
+    return _REFGRID
+
+
+def suite_reference_grid(ck):
+    """References to examples: shape of the referenced type x container x position x declaration order. Every example
+    of an accepted case goes through the direct oracle; a case the compiler does not accept is a disagreement with
+    what the grid takes for granted (suite decl.ircheck.refgrid_accepted), not a failing input of the property."""
+    from stone.ir import Struct, Union
+    gc = ref_compiler(ck)
+    if gc is None:
+        return
+    cases = []
+    for t, labels in REF_TARGETS:
+        for cname, decl, mty, val in ref_containers(t, labels):
+            for pos in REF_POSITIONS:
+                for first in (False, True):
+                    full = pos in ('struct', 'union') and not first
+                    if full or ck.tier == 'thorough' or ck.rng.random() < 0.22:
+                        cases.append(((pos, t, cname, decl, mty, val), first))
+    accepted = {False: [], True: []}
+    for n, (case, first) in enumerate(cases):
+        out = gc.compile(ref_case_text(0, case), first)
+        pos, t, cname = case[0], case[1], case[2]
+        ck.case(('refgrid', case, first), nontrivial=True)
+        ck.hist('refgrid.outcome', out[0] if out[0] != 'crash' else 'crash:' + out[1])
+        # every case of this grid is a legal example (each was accepted by the compiler the grid was written for): a
+        # refusal or an exception is compared, like the other things the grids take for granted
+        if out[0] == 'ok':
+            ck.agree('decl.ircheck.refgrid_accepted')
+        else:
+            ck.disagree('decl.ircheck.refgrid_accepted', {'position': pos, 'target': t, 'container': cname, 'case_first': first,
+                                                          'specs': gc.specs(ref_case_text(0, case), first)}, list(out[:2]), ['ok'])
+        if out[0] == 'ok':
+            accepted[first].append(case)
+            ck.hist('refgrid.accepted.position', pos + ('/case-first' if first else ''))
+            ck.hist('refgrid.accepted.container', cname)
+        else:
+            ck.hist('refgrid.refused', '%s %s: %s' % (cname, 'of nullable' if t.endswith('?') or t in ('PN', 'UN') else '',
+                                                      out[1][:60] if out[0] == 'invalid' else 'crash ' + out[1]))
+    ck.stat('refgrid.cases', len(cases))
+    for first in (False, True):
+        ck.stat('refgrid.accepted', len(accepted[first]))
+        for case, built, _sname, err in build_batches(ck, accepted[first], ref_case_text, gc=gc, first=first, size=60):
+            pos, t, cname, decl, mty, val = case
+            if built is None:
+                ck.stat('refgrid.codegen_failed')
+                ck.hist('refgrid.codegen_failed', type(err).__name__)
+                continue
+            # which index the case had inside its batch: find its definitions by suffix
+            ns = built.api.namespaces['ns']
+            sfx = None
+            for i, c in enumerate(accepted[first]):
+                if c is case:
+                    sfx = '_%d' % i
+                    break
+            specs = gc.specs(ref_case_text(0, case), first)
+            for dt in ns.data_types:
+                if not dt.name.endswith(sfx) or not isinstance(dt, (Struct, Union)):
+                    continue
+                for label, ex in dt.get_examples().items():
+                    if is_implicit_catch_all_example(dt, label) or label not in dt._raw_examples:
+                        continue
+                    ck.case(('refgrid-rt', case, first, dt.name[:-len(sfx)]), nontrivial=True)
+                    problems, _o, _b = judge_example(built, dt, label, ex.value, [])
+                    ck.hist('refgrid.verdict', NOT_JUDGED if problems is NOT_JUDGED else
+                            ('ok' if not problems else problems[0][1]['kind'] + ':' + str(problems[0][1].get('why', problems[0][1].get('site')))))
+                    report_example(ck, problems, {'suite': 'reference-grid', 'position': pos, 'target': t, 'container': cname,
+                                                  'member_type': mty, 'value': val, 'case_first': first,
+                                                  'type': 'ns.' + dt.name[:-len(sfx)] + '_0', 'label': label,
+                                                  'example': plain_json(ex.value), 'specs': specs})
+
+
+# ==================================================================================================
+# suite: shape of an example as a whole (how many members, which tags, references where required) for unions and for
+# structs with enumerated subtypes; void members
+# ==================================================================================================
+SHAPE_PRELUDE = '''union SU
+    f Int32
+    g String
+    h
+    hv VoidAlias
+    p Tee?
+
+struct SR
+    union
+        a SA
+        b SB
+    k Int32 = 1
+
+struct SA extends SR
+    q Int32
+    example default
+        q = 1
+
+struct SB extends SR
+    r String?
+    example default
+        r = null
+    example nothing
+
+'''
+# (name of the type that gets the example, lines of the example, verdict of the compiler as documented:
+#  "Example for union must specify exactly one tag", "Unknown tag", "example of void type must be null",
+#  "Example for struct with enumerated subtypes must only specify one subtype tag" / "must be a reference to a
+#  subtype's example" / "Unknown subtype tag" / reference to a label the subtype does not have)
+SHAPE_CASES = [
+    ('SU', ['f = 1'], 'ok'), ('SU', ['g = "a"'], 'ok'), ('SU', ['h = null'], 'ok'), ('SU', ['hv = null'], 'ok'),
+    ('SU', ['p = null'], 'ok'), ('SU', ['p = default'], 'invalid'),
+    ('SU', [], 'invalid'), ('SU', ['f = 1', 'g = "a"'], 'invalid'), ('SU', ['f = 1', 'h = null'], 'invalid'),
+    ('SU', ['z = 1'], 'invalid'), ('SU', ['h = 1'], 'invalid'), ('SU', ['h = "x"'], 'invalid'), ('SU', ['hv = 1'], 'invalid'),
+    ('SU', ['f = null'], 'invalid'), ('SU', ['h = h'], 'invalid'), ('SU', ['f = 2147483648'], 'invalid'),
+    ('SR', ['a = default'], 'ok'), ('SR', ['b = default'], 'ok'), ('SR', ['b = nothing'], 'ok'),
+    ('SR', [], 'invalid'), ('SR', ['a = default', 'b = default'], 'invalid'), ('SR', ['a = default', 'k = 2'], 'invalid'),
+    ('SR', ['a = 1'], 'invalid'), ('SR', ['a = null'], 'invalid'), ('SR', ['c = default'], 'invalid'), ('SR', ['k = 2'], 'invalid'),
+    ('SR', ['a = nosuch'], 'invalid'), ('SR', ['a = nothing'], 'invalid'),
+]
+
+
+def shape_case_text(i, case):
+    """the prelude of the shape cases with every name suffixed by the case number and the example added to one type"""
+    name, lines, _want = case
+    sfx = 'x%d' % i
+    text = SHAPE_PRELUDE
+    for n in ('SU', 'SR', 'SA', 'SB'):
+        text = re.sub(r'\b%s\b' % n, n + sfx, text)
+    ex = '    example shaped\n' + ''.join('        %s\n' % l for l in lines)
+    head = ('union %s%s\n' if name == 'SU' else 'struct %s%s\n') % (name, sfx)
+    at = text.index(head)
+    end = text.index('\n\n', at)
+    return text[:end + 1] + ex + text[end + 1:]
+
+
+def suite_example_shapes(ck):
+    from stone.ir import Struct
+    gc = grid_compiler(ck)
+    if gc is None:
+        return
+    ts = values.TsRegistry()
+    accepted, reqs, meta = [], [], []
+    base = gc.compile(shape_case_text(0, ('SU', ['f = 1'], 'ok')).replace('    example shaped\n        f = 1\n', ''))
+    capi = capi_of(base[1]) if base[0] == 'ok' else None
+    for case in SHAPE_CASES:
+        name, lines, want = case
+        text = shape_case_text(0, case)
+        out = gc.compile(text)
+        got = out[0] if out[0] != 'crash' else 'crash:' + out[1]
+        ck.case(('exshape', name, tuple(lines)), nontrivial=True)
+        ck.hist('example.shape.outcome', got)
+        if got == want:
+            ck.agree('decl.ircheck.example_shape')
+        else:
+            ck.disagree('decl.ircheck.example_shape', {'type': name, 'example': lines, 'specs': gc.specs(text)},
+                        list(out[:2]) if out[0] != 'ok' else ['ok'], [want])
+        if out[0] == 'ok':
+            accepted.append(case)
+        # the model knows unions (structs with enumerated subtypes are outside it)
+        if name == 'SU' and capi is not None:
+            try:
+                ast = parse_only('namespace ns\n\n' + text)
+                node = [n for n in ast if getattr(n, 'name', None) == 'SUx0'][0]
+                exv = [[k, exval_tagged(f.value)] for k, f in node.examples['shaped'].fields.items()]
+            except Exception:  # noqa: BLE001 - (an example without members may not parse)
+                continue
+            pats, fmts, strings, ints = set(), set(), {'f', 'g', 'h', 'hv', 'p'}, set()
+            capi_params(capi, pats, fmts)
+            for _k, v in exv:
+                collect_exval(v, strings, ints)
+            ext, cext = make_tables(pats, fmts, strings, ints, ts)
+            reqs.append({'op': 'decl.ircheck.example', 'api': capi, 'cls': 'ns.SUx0', 'kind': 'union', 'ex': exv, 'ext': ext, 'cext': cext})
+            meta.append((case, [out[0]] if out[0] != 'crash' else ['crash', out[1]], any(_has_ref(v) for _k, v in exv)))
+    for (case, real_check, has_ref), rep in zip(meta, ck.driver(reqs)):
+        if real_check == ['ok']:
+            continue                  # (documents of accepted cases: below, on the loaded classes)
+        compare_example_model(ck, None, None, None, {'suite': 'example-shape', 'type': case[0], 'example': case[1]}, rep,
+                              real_check, has_ref)
+    # whatever the compiler accepts goes through the direct oracle (also a case it should have refused)
+    for case, built, _s, err in build_batches(ck, accepted, shape_case_text, size=40):
+        if built is None:
+            ck.stat('example.shape.codegen_failed')
+            continue
+        i = [k for k, c in enumerate(accepted) if c is case][0]
+        dt = built.api.namespaces['ns'].data_type_by_name['%sx%d' % (case[0], i)]
+        ex = dt.get_examples().get('shaped')
+        if ex is None:
+            continue
+        ck.case(('exshape-rt', case[0], tuple(case[1])), nontrivial=True)
+        problems, _o, _b = judge_example(built, dt, 'shaped', ex.value, [])
+        report_example(ck, problems, {'suite': 'example-shape', 'type': 'ns.%sx0' % case[0], 'label': 'shaped',
+                                      'example': plain_json(ex.value), 'specs': gc.specs(shape_case_text(0, case))})
 
 
 # ==================================================================================================
@@ -1618,6 +2202,11 @@ def suite_flat_examples(ck, n):
                             for what, sig, detail in judge_default(built, c, f):
                                 ck.failing_input('C10 default: ' + what, sig,
                                                  dict(case, suite='flat-default', struct=ref_of(c), field=f.name, **detail))
+                            if c is not dt:
+                                for what, sig, detail in judge_default(built, c, f, via=dt):
+                                    ck.failing_input('C10 default (read on an instance of a subclass): ' + what, dict(sig, via='subclass'),
+                                                     dict(case, suite='flat-default', struct=ref_of(c), field=f.name,
+                                                          read_on=ref_of(dt), **detail))
         compare_example_model(ck, built, dt, doc, {k: v for k, v in case.items()}, rep, real_check)
 
 
@@ -1650,6 +2239,10 @@ def evaluate_specs(specs):
                     if f.has_default:
                         for what, sig, detail in judge_default(built, dt, f):
                             found.append(('C10 default: ' + what, sig, dict(detail, struct=ref_of(dt), field=f.name)))
+                        for sub in descendants_of(built.api, dt):
+                            for what, sig, detail in judge_default(built, dt, f, via=sub):
+                                found.append(('C10 default (read on an instance of a subclass): ' + what, dict(sig, via='subclass'),
+                                              dict(detail, struct=ref_of(dt), field=f.name, read_on=ref_of(sub))))
             for label, ex in dt.get_examples().items():
                 if is_implicit_catch_all_example(dt, label):
                     continue
@@ -1736,9 +2329,12 @@ def replay(ck, path):
                 if isinstance(dt, Struct) and ('struct' not in case or ref_of(dt) == case['struct']):
                     for f in dt.fields:
                         if f.has_default and ('field' not in case or f.name == case['field']):
-                            for what, sig, detail in judge_default(built, dt, f):
-                                found += 1
-                                print('FAILS:', what, sig, detail)
+                            vias = [None] + [d for d in descendants_of(built.api, dt)
+                                             if 'read_on' not in case or ref_of(d) == case['read_on']]
+                            for via in vias:
+                                for what, sig, detail in judge_default(built, dt, f, via=via):
+                                    found += 1
+                                    print('FAILS:', what, sig, detail, '' if via is None else '(read on %s)' % ref_of(via))
     else:
         for ns in built.api.namespaces.values():
             for dt in ns.data_types:
